@@ -15,7 +15,9 @@ class Case(object):
     """One generated schema with its world, bound to a py_gql Schema object."""
 
     def __init__(self, rng, seed_key, world_kw=None, schema_kw=None, log=None, wrap=None, served=None, mode="code"):
-        self.ir = S.generate(rng, **(schema_kw or {}))
+        kw = dict(schema_kw or {})
+        kw["features"] = dict(kw.get("features") or {}, impl_variants=True)
+        self.ir = S.generate(rng, **kw)
         self.mode = mode
         if mode == "sdl":
             from ..ref import canon
@@ -149,7 +151,9 @@ class DualCase(object):
     def __init__(self, rng, key, log=None, world_kw=None, schema_kw=None, served=None):
         import random
 
-        self.ir = S.generate(rng, **(schema_kw or {"size": rng.choice([1, 2, 2, 3])}))
+        kw = dict(schema_kw or {"size": rng.choice([1, 2, 2, 3])})
+        kw["features"] = dict(kw.get("features") or {}, impl_variants=True)
+        self.ir = S.generate(rng, **kw)
         self.world = World(self.ir, key, served=served, **(world_kw or {}))
         self.sync = Binding(self.world, log=log)
         self.asyn = Binding(self.world, log=log)
